@@ -5,5 +5,7 @@ set -e
 cd "$(dirname "$0")"
 /venv/bin/python -c "import hypothesis" 2>/dev/null || \
   /venv/bin/pip install --no-index --find-links /opt/veriftools/wheels hypothesis
+# atheris (coverage-guided shards, cv/harness/fuzz.py) goes beside the checkout; without it those shards are skipped
+[ -d .deps/atheris ] || /venv/bin/pip install -q --no-index --find-links /opt/veriftools/wheels --target .deps atheris || true
 /venv/bin/python -c "import hypothesis, cohdl; print('hypothesis', hypothesis.__version__)"
 if [ -f selftest/run.py ]; then PYTHONPATH=/verif:/repo /venv/bin/python selftest/run.py --quick; fi
